@@ -156,6 +156,9 @@ def correspond(rep, cases, results, driver, stats):
     mres = fw.run_model(driver, cmds)
     for (c, r), m, mc in zip(sel, mres, cmds):
         def diff(what, rust, model):
+            stats["model_diffs"] = stats.get("model_diffs", 0) + 1
+            if stats["model_diffs"] > 6:
+                return
             rep.violation({"property": PROP, "kind": "model and implementation differ: " + what,
                            "model_function": "TPE.tpe / interp / tpe_decision / reval (coq/model/TPE.v)",
                            "rust_entry_point": "PolicySet::tpe, TpeResponse::{decision, reason, policies, reauthorize}",
